@@ -12,12 +12,12 @@ VARIABLE w
 simvars == <<vars, w>>
 
 \* commands that keep the connection open when they are legal
-Benign   == {a \in Alphabet : a.mode \in {"ok", "async", "err", "tagschange"} /\ a.var = "ok"
+Benign   == {a \in Alphabet : a.mode \in {"ok", "async", "err", "tagschange", "past"} /\ a.var = "ok"
                               /\ a.kind \notin {"empty", "pingfield", "malformed", "emptyframe", "connect"}}
 BenignQ  == SetToSeq(Benign)
 AllQ     == SetToSeq(Alphabet)
 IdQ      == <<"fresh", "fresh", "fresh", "zero", "dup", "none">>
-ResQ     == <<"ok", "ok", "err", "disc", "expired", "tagschange", "ok">>
+ResQ     == <<"ok", "ok", "err", "disc", "expired", "tagschange", "past", "ok">>
 
 \* TLC integers are 32 bit: the sum stays below 2^31
 H(s) == (w % 9973) * 50021 + s * 7919 + ncmd * 104729 + nfire * 1299709 + Len(out) * 1548586 + Len(cb) * 3245284
